@@ -542,3 +542,52 @@ Example C08_inline_lookup_matters :
   ok ByMappedName ByAttrName (addr_tree "homeAddr") = false /\      (* export reads "homeAddr._mapper": not found *)
   ok ByMappedName ByAttrName (addr_tree "home_addr") = true.         (* holder not renamed: the two names coincide *)
 Proof. repeat split; vm_compute; reflexivity. Qed.
+
+(* ------------------------------------------------------------------ the tie to the source of structure_to_schema (class level) *)
+(* Gen/SchemaSrc.v also carries the translation of _validated_mapped_value, _generate_schema_for_fields_internal and
+   structure_to_schema (regenerated on every run); Schema/SchemaSrcClassProofs.v ties them to the hand model:
+   [h] are the attributes of the classes, [agg] is aggregate_serialization_mappers, [rec] convert_to_schema. *)
+From TP Require Import Schema.SchemaSrcClassProofs.
+
+(* _validated_mapped_value on a mapper of string renames *)
+Theorem C08_src_validated_mapped_value : forall m k, validated_mapped_value (ren_dict m) (PStr k) = Ok PNone.
+Proof. exact generated_validated_mapped_value. Qed.
+
+(* the loop of _generate_schema_for_fields_internal: properties keyed by the renamed names in field order, with the
+   default copied in; the required list renamed field by field and extended by the defaulted keys *)
+Theorem C08_src_generate_schema_for_fields : forall pat_text ei h agg s2s defs_store rec m fs P R,
+    (forall d, In d fs -> field_ready pat_text ei rec d) ->
+    generate_schema_for_fields_internal h agg s2s defs_store rec (fields_dict pat_text ei fs) (ren_dict m) (PDict P) (strs R)
+    = Ok (PTuple [PDict (fst (fold_left (step pat_text ei m) fs (P, R)));
+                  strs (snd (fold_left (step pat_text ei m) fs (P, R)))]).
+Proof. exact generated_generate_schema_for_fields. Qed.
+
+(* structure_to_schema on a class seen through the heap: the wrapper form is the bare field schema, any other class
+   {"type": "object", "properties", "required" (sorted), "additionalProperties"}, in this order *)
+Theorem C08_src_structure_to_schema : forall pat_text ei h agg s2s defs_store rec c m sm,
+    class_seen pat_text ei h agg c m sm -> nodup_str (c_required c) = true ->
+    (forall d, In d (c_fields c) -> field_ready pat_text ei rec d) ->
+    structure_to_schema_body h agg s2s defs_store rec (cls_val (c_name c)) sm
+    = if wrapper_form c
+      then match c_fields c with
+           | d :: _ => (J <- rec (fdecl_obj pat_text ei d) PNone ;; Ok (PTuple [J; defs_token]))
+           | [] => Raise Unmodelled
+           end
+      else Ok (PTuple [class_json pat_text ei m c; defs_token]).
+Proof. exact generated_structure_to_schema_body. Qed.
+
+Print Assumptions C08_src_validated_mapped_value.
+Print Assumptions C08_src_generate_schema_for_fields.
+Print Assumptions C08_src_structure_to_schema.
+
+(* satisfiable, and equal to the hand model's class_schema on a class with a renamed key, a default and a reference to
+   a wrapper class; and the disagreement on chained renames *)
+Example C08_src_class_level_satisfiable :
+  class_seen ex_pt no_einfo (heap_of ex_pt no_einfo ex_env) (agg_of ex_smap) ex_T (ex_smap (c_name ex_T)) PNone /\
+  nodup_str (c_required ex_T) = true /\ wrapper_form ex_T = false /\ wrapper_form ex_P = true /\
+  structure_to_schema (heap_of ex_pt no_einfo ex_env) (agg_of ex_smap) (fun _ _ => Ok tt) 6%nat 3%nat (cls_val (s2p "T")) PNone
+  = Ok (PTuple [sch_json ex_pt (class_schema no_einfo (ex_smap (s2p "T")) ex_T); defs_token]) /\
+  structure_to_schema (heap_of ex_pt no_einfo ex_env) (agg_of ex_smap) (fun _ _ => Ok tt) 6%nat 3%nat (cls_val (s2p "P")) PNone
+  = Ok (PTuple [sch_json ex_pt (class_schema no_einfo (ex_smap (s2p "P")) ex_P); defs_token]) /\
+  class_json ex_pt no_einfo (ex_smap (s2p "T")) ex_T = sch_json ex_pt (class_schema no_einfo (ex_smap (s2p "T")) ex_T).
+Proof. exact class_level_satisfiable. Qed.
